@@ -534,3 +534,43 @@ func Harness_C14_write_fault() {
 	}
 	verif_Cover("C14.wf.done")
 }
+
+// Values around one megabyte (a client's whole configuration, a long index list): a later write
+// of such a value is what every later read returns - a value too large for some tier's liking
+// must not leave the older, smaller one readable.
+func Harness_C14_large_values() {
+	ctx := context.Background()
+	w := newC14World(ctx, false)
+	nd := w.nodes[0]
+	key := []string{"tunnox:client_mappings:7", DefaultConfig().PersistentPrefixes[0] + "cfg"}[verif_Choose(2)]
+	n := []int{1<<20 - 1, 1 << 20, 1<<20 + 1, 3 << 20}[verif_Choose(4)]
+	small := "v1"
+	verif_Assert("C14.big.setup.set", nd.h.Set(key, small, 0) == nil)
+	for verif_PendingCount() > 0 {
+		verif_MaybeRunPending()
+	}
+	var big any
+	if verif_Bool() {
+		big = string(make([]byte, n))
+	} else {
+		big = make([]byte, n)
+	}
+	verif_Assert("C14.big.set", nd.h.Set(key, big, 0) == nil)
+	size := func(v any) int {
+		switch x := v.(type) {
+		case string:
+			return len(x)
+		case []byte:
+			return len(x)
+		}
+		return -1
+	}
+	v, err := nd.h.Get(key)
+	verif_Assert("C14.big.read_after_write", err == nil && size(v) == n)
+	for verif_PendingCount() > 0 {
+		verif_MaybeRunPending()
+	}
+	v, err = nd.h.Get(key)
+	verif_Assert("C14.big.read_after_writebacks", err == nil && size(v) == n)
+	verif_Cover("C14.big.done")
+}
